@@ -39,7 +39,8 @@ var srids = []int{0, 4326, 1, 255, 256, 257, 12336, 12592, 30812, 1<<31 - 1}
 // 513) and the extremes
 func prefixSRIDs(srid int) []int {
 	if srid == 0 {
-		return []int{0, 4326, 8192, 1, 256, 257, 513, 1<<31 - 1}
+		// 2096.. : prefixes whose first byte is one the framing sniffers look at ('0', '1', '\\') while the second is not
+		return []int{0, 4326, 8192, 1, 256, 257, 513, 1<<31 - 1, 2096, 2097, 2140, 30768}
 	}
 	return []int{srid}
 }
